@@ -158,6 +158,8 @@ type auditSink struct {
 	torn     int           // quiet mode: writes that were not whole records
 	delay    time.Duration // quiet mode: sleep this long in every Write
 	hook     func()        // if set: called once, outside the sink's own lock, when the next record arrives
+	wantHost string        // if set: a record whose principal names another hostname identifies nobody (principal -1)
+	wantIP   string        // likewise for the address
 }
 
 func fileHash(path string) [32]byte {
@@ -221,8 +223,10 @@ func (s *auditSink) Write(p []byte) (int, error) {
 		s.buf = s.buf[i+1:]
 		var e struct {
 			Principal struct {
-				User string   `json:"user"`
-				Tags []string `json:"tags"`
+				User     string   `json:"user"`
+				Tags     []string `json:"tags"`
+				Hostname string   `json:"hostname"`
+				IP       string   `json:"ip"`
 			} `json:"principal"`
 			Action        string `json:"action"`
 			Authorized    bool   `json:"authorized"`
@@ -235,6 +239,9 @@ func (s *auditSink) Write(p []byte) (int, error) {
 			if len(e.Principal.Tags) > 0 { // a tagged node: id of the tag set
 				id, _ = strconv.Atoi(strings.TrimPrefix(e.Principal.Tags[0], "tag:t"))
 				id += 1000
+			}
+			if (s.wantHost != "" && e.Principal.Hostname != s.wantHost) || (s.wantIP != "" && e.Principal.IP != s.wantIP) {
+				id = -1 // the record does not say which machine / address the call came from
 			}
 			rec = &auditRec{Principal: id, Action: e.Action, Secret: []byte(e.Secret), Version: e.SecretVersion, Authorized: e.Authorized}
 		}
@@ -563,6 +570,7 @@ func (e *dbEnv) exec(callers []DBCaller, st DBStep) stepObs {
 	e.sink.fx = nil
 	e.sink.failNext = st.Audit
 	e.sink.lastHash = fileHash(e.path)
+	e.sink.wantHost, e.sink.wantIP = "h", "100.64.0.1" // what mkCaller puts into every principal
 	e.sink.mu.Unlock()
 	if st.Restart {
 		// the server restarts before this call: the old handle is dropped and the file opened again with the
@@ -694,6 +702,7 @@ func (e *dbEnv) exec(callers []DBCaller, st DBStep) stepObs {
 	if e.sink.failNext != "" {
 		e.sink.failNext = "" // the call wrote no record: the fault was not consumed
 	}
+	e.sink.wantHost, e.sink.wantIP = "", ""
 	for _, f := range o.Fx {
 		if f.Kind == "auditfail" {
 			e.sink.dead = true
